@@ -558,6 +558,7 @@ func (r *runner) step(st Step) {
 		r.peers = map[string]*speer{}
 		r.t1ID = ""
 		r.mu.Unlock()
+		r.emit(vh.Ev{"ev": "start"}) // the new session starts the loaded torrent by itself
 		sess, err := torrent.NewSession(r.cfg)
 		if err != nil {
 			panic(err)
@@ -568,7 +569,6 @@ func (r *runner) step(st Step) {
 			r.emit(vh.Ev{"ev": "skip", "what": "torrent-not-loaded"})
 			panic("torrent not loaded after restart")
 		}
-		r.emit(vh.Ev{"ev": "start"})
 		r.waitPeer("out", 6*time.Second)
 	case "sleep":
 		time.Sleep(time.Duration(st.Ms) * time.Millisecond)
